@@ -13,7 +13,7 @@ a later fix: commit rewrote the lines) is reported as 'stale'.
 import json, os, shutil, subprocess, sys, time
 from concurrent.futures import ThreadPoolExecutor
 
-V = '/verif'
+V = os.environ.get('VERIF_HOME', '/verif')
 args = sys.argv[1:]
 jobs = 4
 tier = 'quick'
